@@ -63,6 +63,33 @@ func VerifyFunc(p *Prog, fi *FuncInfo, modeOverride string) *VC {
 	for i := 0; i < sig.Params().Len(); i++ {
 		bindP(sig.Params().At(i))
 	}
+	// pointers to unrelated struct types never alias (no unsafe in the verified code)
+	{
+		var ps []*types.Var
+		if sig.Recv() != nil {
+			ps = append(ps, sig.Recv())
+		}
+		for i := 0; i < sig.Params().Len(); i++ {
+			ps = append(ps, sig.Params().At(i))
+		}
+		for i := 0; i < len(ps); i++ {
+			for j := i + 1; j < len(ps); j++ {
+				ti, oki := ps[i].Type().Underlying().(*types.Pointer)
+				tj, okj := ps[j].Type().Underlying().(*types.Pointer)
+				if !oki || !okj {
+					continue
+				}
+				if types.Identical(ti.Elem(), tj.Elem()) || firstEmbeds(ti.Elem(), tj.Elem()) || firstEmbeds(tj.Elem(), ti.Elem()) {
+					continue
+				}
+				a, aok := st.vars[ps[i]].(Term)
+				b, bok := st.vars[ps[j]].(Term)
+				if aok && bok {
+					vc.assumeGlobal(Or(Not(Eq(a, b)), Eq(a, IntLit(0))))
+				}
+			}
+		}
+	}
 	vc.bindResults(fr, st, sig)
 	fr.snapshotEntry(vc, st)
 	// requires
@@ -354,4 +381,19 @@ func (vc *VC) assumeAutoLemma(name string) {
 		vc.errorf(token.NoPos, "lemma %s used automatically needs a trigger", lm.Name)
 	}
 	vc.assumeGlobal(Forall(bvs, pats, Implies(And(pre...), And(post...))))
+}
+
+// firstEmbeds reports whether struct type outer contains inner at offset zero (transitively).
+func firstEmbeds(outer, inner types.Type) bool {
+	for {
+		s := structOf(outer)
+		if s == nil || s.NumFields() == 0 {
+			return false
+		}
+		f := s.Field(0).Type()
+		if types.Identical(f, inner) {
+			return true
+		}
+		outer = f
+	}
 }
